@@ -162,6 +162,9 @@ def r1_derivations(ctx):
 
 
 def r2_unit_independence(ctx):
+    from . import C03 as _C03, C04 as _C04
+    _C04._system_units_agree(ctx)    # inputs given in a unit system (#SMAS, ...) and in plain units denote the same amounts (shared with C04.R1)
+    _C03.r8_tables(ctx)              # ... and so do prefixed inputs: table well-formedness, SI prefix powers (shared with C03.R8)
     _cells_are_converted(ctx)
     def unitless_reads(tree):
         out = []
